@@ -20,7 +20,7 @@ RULE = ("fake ACN-Data server holding 0-250 documents (unique _id, RFC-1123 stri
         "get_sessions_by_time (the server parses the where clause back and filters); host TZ varied; non-trivial = >=3 pages "
         "with >=1 empty page, or a document in a DST-transition hour; distinct = (page plan shape, args, fault, TZ)")
 PROBES = ["empty_page_middle", "empty_page_end", "zero_documents", "three_plus_pages", "dst_transition_doc", "timeseries_doc",
-          "by_time_query", "fault:not_json", "fault:error_doc", "fault:connection", "invalid_site", "host_tz_non_utc",
+          "by_time_query", "page_chain_over_1000", "fault:not_json", "fault:error_doc", "fault:connection", "invalid_site", "host_tz_non_utc",
           "roundtrip_checked", "timeseries_spans_dst", "concurrent_generators", "interleaved_switches", "underscore_date_field",
           "new_year_query_bound", "prelude_query_on_same_client"]
 FAULT_DIMENSION = "interleaving of up to three generators of one client (seeded scheduler decides who advances); server-side faults at page k: non-JSON body, error document without _items, transport ConnectionError (client has no retry: must raise, never end silently)"
@@ -37,6 +37,11 @@ def gen(rs, tier):
     r = sub(rs, "c20")
     n = r.choice([0, 0, 1, 2, 3, r.randint(0, 12), r.randint(0, 40), r.randint(100, 250) if tier == "thorough" and r.random() < 0.2 else r.randint(0, 30)])
     ts_mode = r.random() < 0.35
+    long_chain = sub(rs, "long_chain").random() < (0.004 if tier == "quick" else 0.01)
+    if long_chain:
+        # a result set of more than a thousand pages (one session per page, as the time-series endpoint serves them)
+        n = sub(rs, "long_chain_n").randint(1050, 1500)
+        ts_mode = False
     base = 1514764800 + r.randint(0, 3 * 365 * 86400)
     docs = []
     for i in range(n):
@@ -111,6 +116,9 @@ def gen(rs, tier):
         psite = free_sites[0]
         prelude = {"site": psite, "cond": r.choice([None, None, "kWhDelivered > 3"]), "sort": r.choice([None, "connectionTime"]),
                    "project": r.choice([None, '{"kWhDelivered": 1}']), "consume": r.choice([0, 1, 99]), "ndocs": r.randint(0, 4)}
+    if long_chain:
+        pages, mode, fault, extra, prelude = [1] * n, "plain", None, [], None
+        args = {"site": args["site"] if args["site"] in ("caltech", "jpl", "office001") else "caltech", "timeseries": False}
     return {"seed": rs, "docs": docs, "pages": pages, "mode": mode, "args": args, "fault": fault, "extra_queries": extra, "prelude": prelude,
             "host_tz": r.choice(HOST_TZ), "roundtrip": [(r.choice(DST_EPOCHS + [base]) + r.randint(-7200, 7200), r.choice(ZONES)) for _ in range(3)]}
 
@@ -180,6 +188,8 @@ def check(sc):
                     it = client.get_sessions(a["site"], cond=a.get("cond"), project=a.get("project"), sort=a.get("sort"),
                                              timeseries=a.get("timeseries", False))
                 steps = 0
+                if len(sc["pages"]) > 1000:
+                    out.probe("page_chain_over_1000")
                 if not sc.get("extra_queries"):
                     for doc in it:
                         got.append(doc)
